@@ -99,6 +99,7 @@ func (m *Mutex) TryLock() bool {
 		vsched.Point(vsched.KUnlock, unsafe.Pointer(m))
 
 		if m.st != 0 {
+			vsched.Spin()
 			return false
 		}
 
@@ -171,6 +172,7 @@ func (m *RWMutex) TryLock() bool {
 		vsched.Point(vsched.KUnlock, unsafe.Pointer(m))
 
 		if m.st != 0 {
+			vsched.Spin()
 			return false
 		}
 
@@ -186,6 +188,7 @@ func (m *RWMutex) TryRLock() bool {
 		vsched.Point(vsched.KUnlock, unsafe.Pointer(m))
 
 		if m.st < 0 {
+			vsched.Spin()
 			return false
 		}
 
